@@ -276,6 +276,52 @@ def body_conditional(I, X, n=1, header="if-none-match", lm="none", ims="none", s
     return ok, {"modified": modified}
 
 
+MONTHS = ["Jan", "Feb", "Mar", "Apr", "May", "Jun", "Jul", "Aug", "Sep", "Oct", "Nov", "Dec"]
+
+
+def p2(n):
+    """two-digit rendering of a small non-negative int (plain or solver)"""
+    return pstr(n).zfill(2)
+
+
+def body_conditional_dates(I, X, lm_month=3, ims_month=3, zone="GMT", lm_kind="aware"):
+    """If-Modified-Since against Last-Modified with both instants solver-quantified: the year,
+    day, hour, minute and second of each side (and the header's numeric zone offset) are solver
+    integers; the verdict must be 'unmodified' exactly when Last-Modified is not later than the
+    header's instant, compared as instants (offsets applied), at second resolution"""
+    import datetime as dtm
+
+    from harness.dtmodel import SymDatetime, utc_seconds, valid_day
+    from werkzeug.sansio.http import is_resource_modified
+
+    def fields(tag, month):
+        y = X.int(tag + "y", 1000, 9999)
+        d = X.int(tag + "d", 1, 31)
+        valid_day(X, y, month, d)
+        return (y, month, d, X.int(tag + "h", 0, 23), X.int(tag + "mi", 0, 59), X.int(tag + "s", 0, 59))
+
+    a = fields("a", lm_month)     # Last-Modified (a datetime object, as applications pass it)
+    b = fields("b", ims_month)    # If-Modified-Since (header text)
+    off = 0
+    if zone == "GMT":
+        ztext = "GMT"
+    else:
+        oh, om = X.int("oh", 0, 23), X.int("om", 0, 59)
+        ztext = pconcat(zone, p2(oh), p2(om))
+        off = (oh * 3600 + om * 60) * (1 if zone == "+" else -1)
+        # '-0000' means "no zone information" (naive, taken as UTC): same instant as +0000
+    hdr = pconcat("Mon, ", p2(b[2]), " ", MONTHS[ims_month - 1], " ", pstr(b[0]), " ", p2(b[3]), ":", p2(b[4]), ":", p2(b[5]), " ", ztext)
+    tz = dtm.timezone.utc if lm_kind == "aware" else None
+    if X.symbolic:
+        lm = SymDatetime(a, tz)
+    else:
+        lm = dtm.datetime(*a, tzinfo=tz)
+    modified = I.call(is_resource_modified, (), {"last_modified": lm, "http_if_modified_since": hdr})
+    unmod = utc_seconds(a, 0) <= utc_seconds(b, off)
+    got_unmod = pnot(modified) if not isinstance(modified, bool) else (not modified)
+    return peq(got_unmod, unmod), {"header": hdr, "modified": bool(modified)}
+
+
 def obligations(tier, seed):
     out = []
     quick = tier == "quick"
@@ -294,6 +340,12 @@ def obligations(tier, seed):
         add(f"range_wrapper[seekable,total={total}]", "body_range_wrapper", {"nchunks": 1, "total": total, "seekable": True})
     for n in ([1, 2, 3] if quick else [1, 2, 3, 4, 5]):
         add(f"process_range[n={n}]", "body_process_range", {"n": n}, n == 3, 1500)
+    combos = [(3, 3, "GMT", "aware"), (2, 3, "+", "aware"), (12, 1, "-", "naive"), (1, 12, "+", "aware")]
+    if not quick:
+        combos += [(m, m, z, k) for m in (2, 6, 12) for z in ("GMT", "+", "-") for k in ("aware", "naive")]
+    for lm_m, ims_m, zone, kind in combos:
+        add(f"conditional_dates[lm_month={lm_m},ims_month={ims_m},zone={zone},{kind}]", "body_conditional_dates",
+            {"lm_month": lm_m, "ims_month": ims_m, "zone": zone, "lm_kind": kind}, False, 1500)
     for header in ("if-none-match", "if-match"):
         for shape in ("one", "two", "star", "absent"):
             for lm, ims in [("none", "none"), ("equal", "equal"), ("equal-subsec", "equal"), ("after", "equal"), ("before", "equal"),
@@ -302,3 +354,9 @@ def obligations(tier, seed):
                     add(f"conditional[{header},{shape},lm={lm},ims={ims},n={n}]", "body_conditional",
                         {"n": n, "header": header, "lm": lm, "ims": ims, "shape": shape}, shape == "one" and lm == "none")
     return out
+
+
+def make_stubs():
+    from harness.c07 import make_stubs as m
+
+    return m()
